@@ -447,6 +447,43 @@ func (c *FnCtx) Discharge(sc *SolverCfg) {
 	wg.Wait()
 }
 
+// Retry decides an undecided obligation once more with a longer time limit (the whole goal, then its conjuncts).
+// It is used by the check for a handful of undecided obligations only: a verdict "timeout"/"unknown" that comes
+// from a loaded machine must not be reported as a violation, while a tree that really breaks a contract usually
+// leaves many obligations undecided or yields models, and is not delayed by this.
+func (c *FnCtx) Retry(sc *SolverCfg, o *Obligation, factor float64) bool {
+	long := *sc
+	long.TimeoutS = sc.TimeoutS * factor
+	f := filepath.Join(sc.Dir, fmt.Sprintf("%s.retry.%s.smt2", smtName(c.Key), smtName(o.Kind+"."+o.Label)))
+	os.WriteFile(f, []byte(c.smtFor([]*Obligation{o}, false)), 0o644)
+	r := long.race(f)
+	os.Remove(f)
+	if r.verdict == "unsat" {
+		o.Verdict, o.Solver, o.TimeS = "unsat", r.solver+"(retry)", o.TimeS+r.time
+		return true
+	}
+	if r.verdict == "sat" {
+		return false
+	}
+	parts := SplitTerm(o.Goal)
+	if len(parts) <= 1 || len(parts) > 64 {
+		return false
+	}
+	var tot float64
+	for i, g := range parts {
+		fp := filepath.Join(sc.Dir, fmt.Sprintf("%s.retry.%s.part%d.smt2", smtName(c.Key), smtName(o.Kind+"."+o.Label), i))
+		os.WriteFile(fp, []byte(c.smtFor([]*Obligation{{PC: o.PC, Goal: g}}, false)), 0o644)
+		rr := long.race(fp)
+		os.Remove(fp)
+		tot += rr.time
+		if rr.verdict != "unsat" {
+			return false
+		}
+	}
+	o.Verdict, o.Solver, o.TimeS = "unsat", "split(retry)", o.TimeS+r.time+tot
+	return true
+}
+
 // SplitConj splits a top-level (and ...) into its conjuncts.
 func SplitConj(t Term) []Term {
 	s := t.S
